@@ -43,15 +43,16 @@ ASSUMPTIONS = [
     "only fsync'ed data, completed directory operations survive (journaling assumption)",
     "part_file (if given) is a plain file name different from the destination's base name; destination and part are "
     "regular files (no symlinks/directories)",
-    "the body only writes/flushes the file object it is given, may rewind it (seek(0)) when it is done and may change "
-    "the working directory; no truncate, no writes after a seek, no access to the paths",
+    "the body writes/flushes the file object it is given, may rewind it (seek(0)) when it is done, may close it (misuse) "
+    "and may change the working directory; no truncate, no writes after a seek, no access to the paths",
     "the io layer's buffering policy is not modelled: after every write the model is told how many bytes the runtime "
     "pushed to the kernel (measured with fstat); the theorems hold for every such choice",
 ]
 TRUSTED = [
     "Model/C04_Model.v (file system + AtomicSaver program) is hand-written; tied to boltons.fileutils by the "
     "correspondence run: recorded event trace, outcome, and the real directory after the run and after every real kill",
-    "harness/c04.py: recorder over fileutils.os / the part-file object, serialiser",
+    "harness/c04.py: recorder over fileutils.os / the part-file object, process-wide guard over os.* and builtins.open "
+    "in the child (effects on the scenario's directory through other modules are recorded too), serialiser",
     "power-loss clause is proved on the model only (not executable here); kill clause is executed",
 ]
 
@@ -566,10 +567,10 @@ def run_child(tmpdir, cfg, umask, body, body_exc, sched, crash, slow=0.0, kill_a
             ctx.slow = slow
             ctx.crash_after_foreign = crash_after_foreign
             try:
-                import boltons.fileutils as fu
                 rec = Rec(ctx)
+                install_guard(ctx, rec)          # before the import: `from os import rename` style bindings are guarded too
+                import boltons.fileutils as fu
                 fu.os = rec
-                install_guard(ctx, rec)
                 os.write(wfd, b"R")            # ready: the save starts now (lets the parent time a SIGKILL)
                 outcome = _drive(fu, cfg, ctx, tmpdir, body, body_exc)
                 ctx.dump({"outcome": outcome})
@@ -985,13 +986,16 @@ def gen_grid():
                                "sched": [], "crash": [0, 3, 6, 9], "retry": False}
     # eight failure paths: an injected error at flush / fsync / close / publication, both publication styles
     for ow in (True, False):
-        for k in (4, 5, 6, 7):
+        for back in (3, 2, 1, 0):
             cfg = {"overwrite": ow, "overwrite_part": False, "rm_part_on_exc": True, "file_perms": None,
                    "text_mode": False, "buffering": -1, "part_file": None, "api": "func", "path": "abs",
                    "explicit": True, "abort_kind": "exc"}
-            yield {"cfg": cfg, "umask": 0o022, "init": ({"dest": ["OLD", 0o640]} if ow else {}),
-                   "body": [["w", "hello"], ["w", " world"]], "body_exc": False,
-                   "sched": [[k, "fault", EIO]], "crash": [k, k + 1], "retry": False}
+            case = {"cfg": cfg, "umask": 0o022, "init": ({"dest": ["OLD", 0o640]} if ow else {}),
+                    "body": [["w", "hello"], ["w", " world"]], "body_exc": False, "sched": [], "retry": False}
+            k = publish_index(case) - back            # flush, fsync, close, and the publication itself (EXDEV)
+            case["sched"] = [[k, "fault", EXDEV if back == 0 else EIO]]
+            case["crash"] = [k, k + 1, k + 2]
+            yield case
 
 
 def translators(repo):
